@@ -550,6 +550,35 @@ def refused_noop(case):
     return []
 
 
+def usable_after_refusal(case):
+    """C16 (last clause): a client whose exchange was refused (RPC error or error pack) remains usable —
+    its checkpoint, its pending operations and its state are exactly as before the exchange (so the next
+    exchange re-sends them), the error reached the error handler, and a later un-mutated exchange of the same
+    replica is not refused for a reason the refused one created (missing operations)."""
+    for idx, (ln, mo) in enumerate(case):
+        if ln.get("k") != "sync" or ln.get("fault") in ("drop", "late"):
+            continue
+        io = ln.get("obs", {})
+        pre = {p["r"]: p for p in io.get("pre") or []}
+        resp = io.get("resp") or []
+        posts = {p["r"]: p for p in io.get("posts") or []}
+        rs = ln.get("rs") or []
+        if io.get("rpc") not in (0, None):
+            continue    # nothing was applied on the client: checked by the next exchange's `pre`
+        for r in rs:
+            if r not in pre or r not in posts:
+                continue
+            pk = next((p for p in resp if p and p.get("key") == pre[r].get("key")), None)   # as the client matches packs
+            if not pk or not (pk.get("opt", 0) & 32):
+                continue
+            a, b = pre[r], posts[r]
+            if a["cp"] != b.get("cp") or a["npending"] != b.get("npending") or first_diff(a["view"], b.get("view")):
+                return [dict(step=idx, what="refused-exchange-changed-client", detail=dict(cmd=strip(ln), before=a, after={k: b.get(k) for k in ("cp", "npending", "view")}))]
+            if not any(h.get("h") == "error" or "err" in str(h.get("h", "")) for h in b.get("handlers") or []):
+                return [dict(step=idx, what="refusal-not-reported-to-error-handler", detail=dict(cmd=strip(ln), handlers=b.get("handlers")))]
+    return []
+
+
 def isolation(case):
     """C17: a request by a client of collection A leaves every document of the other collections
     unchanged; a foreign request is refused."""
@@ -783,6 +812,6 @@ def hash_unique(case):
     return []
 
 
-ORACLES = dict(hash_unique=hash_unique, snapshot_replay=snapshot_replay, goroutines_serial=goroutines_serial, fault_recovers=fault_recovers, enc_roundtrip=enc_roundtrip, patch_target=patch_target, loginv=loginv, sconverge=sconverge, refused_noop=refused_noop,
+ORACLES = dict(usable_after_refusal=usable_after_refusal, hash_unique=hash_unique, snapshot_replay=snapshot_replay, goroutines_serial=goroutines_serial, fault_recovers=fault_recovers, enc_roundtrip=enc_roundtrip, patch_target=patch_target, loginv=loginv, sconverge=sconverge, refused_noop=refused_noop,
                isolation=isolation, notify=notify, contract=contract, corr=corr, spec=spec, converge=converge, err_noop=err_noop, no_panic=no_panic,
                seq_gapless=seq_gapless, list_order=list_order, twin=twin, tx_atomic=tx_atomic)
